@@ -13,7 +13,7 @@ ENCODED = ['scinumtools.units.magnitude:Magnitude._add', 'scinumtools.units.magn
 EXPLANATION = ("Values a,b of either sign and uncertainties ea,eb>=0 are solver variables (reals); the real Magnitude/Quantity "
                "operators run on proxies; np.abs/np.max fork or become If-terms; per path z3 proves the error formula claims.")
 ASSUMPTIONS = unitkit.UNITS_STUB_TEXT + [
-    "division by a symbolic value assumes the divisor is non-zero on that path (a-ea, a+ea, b-eb, b+eb, k)",
+    "a division by a term that may be zero forks and the zero side raises in the library as it would on numbers; two scenario preconditions exclude divisor intervals that end at zero (b-eb = 0 or b+eb = 0: the quotient interval is unbounded, the library raises ZeroDivisionError, no claim)",
     "first-order bound for a/b is claimed for 0 < eb < b (relative uncertainty below 100 %)",
     "power: only non-negativity is claimed (the property states nothing else for powers); exponents are concrete",
     "array magnitudes are 2-element object arrays of proxies (class SymArr overrides astype(float)); np.max over such arrays forks on every comparison",
